@@ -92,6 +92,10 @@ def lib_commands(rec, vec_overload):
         t = rel[2:]
         for j in range(0, len(t), 4):
             need.setdefault((t[j + 1], t[j + 2]), {})[t[j + 3]] = None
+    for rel in rec.get("probe", []):
+        t = rel[2:]
+        for j in range(0, len(t), 4):
+            need.setdefault((t[j + 1], t[j + 2]), {})[t[j + 3]] = None
     for rel in rec.get("bil", []):
         t = rel[2:]
         for j in range(0, len(t), 7):
@@ -100,6 +104,14 @@ def lib_commands(rec, vec_overload):
                 need.setdefault((t[j + 4], t[j + 5]), {})[t[j + 6]] = None
     for si, ins in enumerate(inst, start=1):
         slot = "s%d" % si
+        # exact power-of-two scales of this instance (family "scale"): x -> 2^xs x, y -> 2^ys y
+        sx, sy = 2.0 ** ins.get("xs", 0), 2.0 ** ins.get("ys", 0)
+
+        def fx(k, sx=sx):
+            return repr(k / XD * sx)
+
+        def fy(v, sy=sy):
+            return repr(v / YD * sy)
         cmds.append("new %s %s %s%d" % (slot, ins["t"], ins["api"], ins["b"]))
         plan.append(("new", si, None, None))
         if "steps" in ins:
@@ -142,7 +154,8 @@ def lib_commands(rec, vec_overload):
         name = ("calc", "der", "ivl")[kind]
         if vec_overload and kind < 2:
             name += "v"
-        cmds.append("%s s%d %d %s" % (name, si, len(pts), " ".join(fx(r) for r in pts)))
+        sx = 2.0 ** inst[si - 1].get("xs", 0)
+        cmds.append("%s s%d %d %s" % (name, si, len(pts), " ".join(repr(r / XD * sx) for r in pts)))
         plan.append(("obs", si, kind, pts))
     return cmds, plan
 
@@ -163,6 +176,7 @@ def lib_check(ctx, rec, out, plan, exact_abs):
     """compare one replayed vector; returns number of compared observations"""
     fam = rec["fam"]
     obs = {}
+    raw = {}
     dead = set()
     for (what, si, kind, arg), lines in zip(plan, out):
         first = lines[0] if lines else "(no output)"
@@ -185,8 +199,12 @@ def lib_check(ctx, rec, out, plan, exact_abs):
             p = first.split()
             if p[0] != "val" or len(p) != len(arg) + 1:
                 raise vlib.InfraError("driver protocol: %s" % first)
+            ins = rec["inst"][si - 1]
+            sx, sy = 2.0 ** ins.get("xs", 0), 2.0 ** ins.get("ys", 0)
+            back = (1.0 / sy, sx / sy, 1.0)[kind]       # observation of a scaled instance -> unscaled units (exact)
             for r, t in zip(arg, p[1:]):
-                obs[(si, kind, r)] = float(t)
+                obs[(si, kind, r)] = float(t) * back
+                raw[(si, kind, r)] = float(t)
     n = 0
     maxy = max([1] + [abs(v) for d in rec["data"] for v in d["y"]])
     ex = rec["exact"]
@@ -232,6 +250,11 @@ def lib_check(ctx, rec, out, plan, exact_abs):
             scale += abs(cf * o)
             csum += abs(cf)
         tol = 1e-9 * scale + 1e-10 * csum * maxy
+        # abscissa-scaled instances: Interpolate's system mixes O(1) boundary rows with O(h) smoothing rows, its
+        # condition number grows like 2^|xs| (measured 5e-8 relative at 2^30); ordinate scaling is bit-exact
+        mx = max(abs(rec["inst"][s2 - 1].get("xs", 0)) for s2 in insts)
+        if mx:
+            tol = max(1e-9, 2.0 ** mx * 1e-13) * scale + max(1e-10, 2.0 ** mx * 1e-14) * csum * maxy
         if clause.startswith("history-independence"):
             tol = 1e-12 * scale + 1e-12          # same arithmetic on the same inputs: exact
         if not (abs(res) <= tol):
@@ -264,6 +287,17 @@ def lib_check(ctx, rec, out, plan, exact_abs):
                               fam, clause, res / (YD * YD), scale / (YD * YD), inst_key(rec, si),
                               [x / XD for x in knots_of(rec, si)], [x / XD for x in d["k"]], [v / YD for v in d["y"]],
                               sorted(insts - {si}), [rec["data"][rec["inst"][b - 1]["d"] - 1]["y"] for b in sorted(insts - {si})]), rec)
+    for rel in rec.get("probe", []):
+        # vacuity guard of the scale family: f'' at a knot of a scaled cubic instance, in the units the code sees
+        t = rel[2:]
+        si = rel[1]
+        if si in dead:
+            continue
+        ins = rec["inst"][si - 1]
+        d_real = (t[7] - t[3]) / XD * 2.0 ** ins.get("xs", 0)
+        f2 = sum(t[j] * raw[(t[j + 1], t[j + 2], t[j + 3])] for j in range(0, len(t), 4)) / (2 * d_real)
+        if 0 < abs(f2) < 1e-12:
+            ctx.extra["tiny_curvature_instances"] = ctx.extra.get("tiny_curvature_instances", 0) + 1
     return n
 
 
@@ -302,8 +336,10 @@ def run_tables(ctx, exe, recs):
             items.append((i, cmds))
         else:
             n = len(r["y"])
-            items.append((i, ["tnew %d %s %s %s" % (n, " ".join(repr(0.5 * j) for j in range(n)),
-                                                   " ".join(repr(float(v)) for v in r["y"]), "".join(r["f"])),
+            xs_, ys_ = " ".join(repr(0.5 * j) for j in range(n)), " ".join(repr(float(v)) for v in r["y"])
+            first = ("tnewe %d %s %s %s %s" % (n, xs_, ys_, " ".join(repr(v / 4.0) for v in r["e"]), "".join(r["f"]))
+                     if r["e"] else "tnew %d %s %s %s" % (n, xs_, ys_, "".join(r["f"])))
+            items.append((i, [first,
                               "tsmooth %d" % r["n"], "tdump", "tsave " + tmp, "tload " + tmp, "tdump"]))
     results, crashes = vlib.run_items(exe, items)
     for i, r in enumerate(recs):
@@ -345,9 +381,17 @@ def run_tables(ctx, exe, recs):
                 what = "end-point" if (n == len(exp) and (ys[0] != exp[0] or ys[-1] != exp[-1])) else "value"
                 ctx.violation("Table:%s:%s" % (step, what), "Table %s after Smooth(%d) of %s: y = %s, expected %s" % (
                     step, r["n"], r["y"], ys, exp), r)
-            if xs != [0.5 * j for j in range(len(exp))] or fl != "".join(r["f"]):
-                ctx.violation("Table:%s:x-or-flags" % step, "Table %s: x %s flags %s, expected flags %s" % (
-                    step, xs, fl, "".join(r["f"])), r)
+            col = "4-column" if r["e"] else "3-column"
+            if xs != [0.5 * j for j in range(len(exp))]:
+                ctx.violation("Table:%s:x" % step, "Table %s: x %s" % (step, xs), r)
+            if fl != "".join(r["f"]):
+                ctx.violation("Table:%s:flags:%s" % (step, col), "Table %s (%s table): flags %s, expected %s" % (
+                    step, col, fl, "".join(r["f"])), r)
+            if r["e"]:
+                es = [float(t) for t in p[7 + 2 * n:7 + 3 * n]] if len(p) > 6 + 2 * n and p[6 + 2 * n] == "e" else None
+                if es != [v / 4.0 for v in r["e"]]:
+                    ctx.violation("Table:%s:yerr" % step, "Table %s: error column %s, expected %s" % (
+                        step, es, [v / 4.0 for v in r["e"]]), r)
 
 
 # ------------------------------------------------------------------------------------------------
@@ -374,8 +418,11 @@ def resample_one(exe, d, idx, r):
     def gx(k):
         return repr(k / xd)              # shortest decimal text: the same text goes into the file and into --grid
     with open(os.path.join(d, "in.tab"), "w") as f:
-        for k, v, fl in zip(r["k"], r["y"], r["f"]):
-            f.write("%s %s %s\n" % (gx(k), fy(v), fl))
+        for j, (k, v, fl) in enumerate(zip(r["k"], r["y"], r["f"])):
+            if r.get("ye"):
+                f.write("%s %s %s %s\n" % (gx(k), fy(v), repr((j % 3) / 4.0), fl))   # x y yerr flag
+            else:
+                f.write("%s %s %s\n" % (gx(k), fy(v), fl))
     mn, h, mx = r["grid"]
     cmd = [exe, "--in", "in.tab", "--out", "out.tab", "--derivative", "der.tab", "--type", r["type"],
            "--grid", "%s:%s:%s" % (gx(mn), gx(h), gx(mx))]
@@ -411,7 +458,7 @@ def run_resample(ctx, exe, recs):
     for i, (r, o) in enumerate(zip(recs, outs)):
         ctx.traces += 1
         ctx.nontriv(("resample", r["fam"], r["type"], tuple(r["k"]), tuple(r["y"]), "".join(r["f"]), tuple(r["grid"])))
-        key = "csg_resample:%s:%s%s" % (r["fam"], r["type"], ":periodic" if r["per"] else "")
+        key = "csg_resample:%s:%s%s%s" % (r["fam"], r["type"], ":periodic" if r["per"] else "", ":yerr-input" if r.get("ye") else "")
         rr = dict(r)
         rr["cmd"] = o["cmd"]
         if o["rc"] != 0:
@@ -529,6 +576,9 @@ def run(ctx):
                     env={"C12_SLICE": sl, "C12_NSLICES": nsl})
         run_lib(ctx, exe, recs, "pairs", 1e-10)
         del recs
+
+    if not ctx.extra.get("tiny_curvature_instances"):
+        raise vlib.InfraError("scale family is vacuous: no scaled cubic instance with 0 < |f''| < 1e-12")
 
     # 5. call histories on one object (mode H): history independence
     res = vlib.tlc("spline", "MCHist" + tier, cfg="MCHist" + tier + ".cfg", workers=WORKERS, timeout=1500, heap="4g")
